@@ -33,6 +33,7 @@ func checkC09(ci any, info *CaseInfo) string {
 	case "parser":
 		cd := codecs[c.Format]
 		rec := &model.RefRecorder{}
+		rec.Limit = 4*len(c.Doc) + 64 // see model.Recorder.Limit
 		var o Outcome
 		if len(c.Cuts) == 0 {
 			o = guard(func() error { return cd.Parse(c.Doc, rec) })
